@@ -111,7 +111,7 @@ func Run(r *vh.Run) {
 		{"rejects", r.Pick(5, 80), scenRejects, false},
 		{"unknownid", r.Pick(3, 40), scenUnknownID, false},
 		{"matrix", r.Pick(20, 60), scenMatrix, true},
-		{"syncclose", r.Pick(4, 40), scenSyncClose, false},
+		{"syncclose", r.Pick(5, 40), scenSyncClose, false},
 		{"relay", r.Pick(3, 30), scenRelay, false},
 		{"caps", r.Pick(6, 120), scenCaps, false},
 		{"capsout", r.Pick(3, 32), scenCapsOut, false},
@@ -1105,6 +1105,9 @@ func scenMatrix(name string, rng *vh.RNG, r *vh.Run) {
 //	variant 1  one peer; Close at a random moment of the round
 //	variant 2  two or three peers whose block requests are held on the serving side; Close when at
 //	           least two requests (a request and its end-of-round duplicate) are in flight
+//	variant 4  17 to 22 peers, one block per request and at least as many requests as peers, all
+//	           held on the serving side; Close when every peer has a request in flight (every
+//	           worker owes one more response after the orchestrator has stopped reading)
 //	variant 3  four peers, two requests: one peer answers, the manager rejects the blocks
 //	           (ingestion error aborts the round) while the other peers' requests are in flight;
 //	           then Close
@@ -1115,7 +1118,10 @@ func scenMatrix(name string, rng *vh.RNG, r *vh.Run) {
 func scenSyncClose(name string, rng *vh.RNG, r *vh.Run) {
 	idx := 0
 	fmt.Sscanf(name[len("syncclose"):], "%d", &idx)
-	variant := []int{0, 2, 3, 1}[idx%4]
+	variant := []int{0, 2, 3, 1, 4}[idx%5]
+	if v := os.Getenv("VERIF_C18_SYNCCLOSE_PEERS"); v != "" {
+		variant = 4 // manual experiment: many peers (see DESIGN C18)
+	}
 	hold := variant == 0
 	nBlocks := 8 + rng.Intn(30)
 	closeAfter := time.Duration(rng.Intn(4000)) * time.Microsecond
@@ -1125,6 +1131,14 @@ func scenSyncClose(name string, rng *vh.RNG, r *vh.Run) {
 		nPeers = 2 + rng.Intn(2)
 	case 3:
 		nPeers = 4
+	case 4:
+		// more peers than a small response buffer holds; one block per request, at least as many
+		// requests as peers: every peer has a request in flight when the round is aborted
+		nPeers = 17 + rng.Intn(6)
+		if v := os.Getenv("VERIF_C18_SYNCCLOSE_PEERS"); v != "" {
+			fmt.Sscanf(v, "%d", &nPeers)
+		}
+		nBlocks = nPeers + 4
 	}
 	c := &vh.Case{Name: name, Tags: []string{"scen:syncclose", fmt.Sprintf("syncclose-variant:%d", variant)},
 		Info: map[string]any{"variant": variant, "blocks": nBlocks, "peers": nPeers, "close_after_us": closeAfter.Microseconds()}}
@@ -1176,6 +1190,8 @@ func scenSyncClose(name string, rng *vh.RNG, r *vh.Run) {
 		opts = append(opts, syncer.WithMaxSendBlocks(uint64(3+rng.Intn(6))))
 	case 3:
 		opts = append(opts, syncer.WithMaxSendBlocks(uint64((nBlocks+1)/2))) // two requests
+	case 4:
+		opts = append(opts, syncer.WithMaxSendBlocks(1))
 	}
 	srv, err := newNode("127.0.0.1", "", nil, true, opts...)
 	if err != nil {
@@ -1214,6 +1230,8 @@ func scenSyncClose(name string, rng *vh.RNG, r *vh.Run) {
 			reached = entered > 0
 		case 2:
 			reached = inFlight() >= 2
+		case 4:
+			reached = inFlight() >= nPeers
 		case 3:
 			_, entered := srv.gate.ingestNow()
 			// the answered request may be the second one (nothing to ingest yet): three
